@@ -162,6 +162,12 @@ def do_replay(pid, path) -> int:
     with open(path) as f:
         doc = json.load(f)
     expect = doc.pop("expect", {})
+    for pre in doc.pop("prelude", []):
+        # runs that have to precede this one in the same process (the violation depends on state leaking across runs)
+        try:
+            prop.execute(pre)
+        except Exception:
+            pass
     res = prop.execute(doc)
     want = tuple(expect.get("signature", []))
     print(f"REPLAY property={pid} file={path} digest={res.log.digest()}")
@@ -303,6 +309,7 @@ def run_check(pid: str, tier: str, verif_seed: int, runs: int | None, workers: i
     known_seen = Counter()
     n_viol = 0
     reported = 0
+    not_repro = []
     for sig, items in sorted(by_sig.items()):
         f = match_finding(findings, pid, sig)
         if f is not None:
@@ -316,8 +323,28 @@ def run_check(pid: str, tier: str, verif_seed: int, runs: int | None, workers: i
         except Exception:
             r = None
         if r is None or not any(v.sig == sig for v in r.violations):
-            print(f"HARNESS-ERROR property={pid} run={kind}:{index} kind=violation-not-reproducible sig={list(sig)}")
-            rc = 2
+            # not reproducible in isolation: does it depend on the runs that preceded it in the same worker process
+            # (state leaking across runs through a process-global of the code under test)?
+            path = None
+            if plan.get("run_index") is not None and plan.get("population") in ("seed", "sys"):
+                pk = plan["population"]
+                prelude = [_plan_for(prop, pid, verif_seed, tier, pk, j) for j in range(max(0, index - 3), index)]
+                doc = dict(plan)
+                doc["prelude"] = prelude
+                tmp = write_replay(pid, doc, sig, "", msg)
+                code, outp = fresh_replay(pid, tmp)
+                if code == 1:
+                    path = tmp
+            if path is None:
+                not_repro.append((kind, index, sig))
+                continue
+            n_viol += 0
+            print(f"VIOLATION property={pid} replay={path}")
+            print(f"  signature={list(sig)} occurrences={len(items)} first_run={kind}:{index} NOTE: reproduces only after the "
+                  f"preceding runs recorded as 'prelude' in the replay file (state leaks across runs in one process)")
+            print("  " + msg[:600].replace("\n", "\n  "))
+            if rc == 0:
+                rc = 1
             continue
         unmin = write_replay(pid, plan, sig, r.log.digest(), msg, directory="replays/unminimised")
         reported += 1
@@ -329,15 +356,25 @@ def run_check(pid: str, tier: str, verif_seed: int, runs: int | None, workers: i
         path = write_replay(pid, small, sig, r2.log.digest(), next(v.msg for v in r2.violations if v.sig == sig))
         code, outp = fresh_replay(pid, path)
         if code != 1:
-            print(f"HARNESS-ERROR property={pid} run={kind}:{index} kind=nondeterministic-replay file={path}\n{outp[-1500:]}")
-            rc = 2
-            continue
+            code2, outp2 = fresh_replay(pid, unmin)
+            if code2 == 1:
+                path = unmin   # the minimised plan only failed because of state left by the shrinker's earlier executions
+            else:
+                not_repro.append((kind, index, sig))
+                continue
         print(f"VIOLATION property={pid} replay={path}")
         print(f"  signature={list(sig)} occurrences={len(items)} first_run={kind}:{index} "
               f"minimised_in={execs} execs size {core.plan_size(plan)}->{core.plan_size(small)} unminimised={unmin}")
         print("  " + msg[:600].replace("\n", "\n  "))
         if rc == 0:
             rc = 1
+    for kind, index, sig in not_repro[:5]:
+        if rc == 1:
+            print(f"NOTE property={pid} run={kind}:{index} sig={list(sig)}: seen in the batch but not reproducible alone "
+                  f"(other violations were confirmed by replay)")
+        else:
+            print(f"HARNESS-ERROR property={pid} run={kind}:{index} kind=violation-not-reproducible sig={list(sig)}")
+            rc = 2
     for f in findings.get("findings", []):
         if f.get("property") == pid and known_seen.get(f["id"]):
             print(f"KNOWN-FINDING: property={pid} {f['what']} (finding {f['id']}, seen {known_seen[f['id']]}x, replay {f.get('replay')})")
